@@ -239,6 +239,8 @@ var fieldNames = []nameSpec{
 	{"APIKey", []string{"api", "key"}}, {"EnableTLS", []string{"enable", "tls"}}, {"Timeout", []string{"timeout"}}, {"LogLevel", []string{"log", "level"}},
 	{"URL", []string{"url"}}, {"Hosts", []string{"hosts"}}, {"Labels", []string{"labels"}}, {"Verbose", []string{"verbose"}}, {"RateLimit", []string{"rate", "limit"}},
 	{"Inner", []string{"inner"}}, {"Server", []string{"server"}}, {"Cache", []string{"cache"}}, {"XMLPath", []string{"xml", "path"}},
+	// pluralised initialisms at the end of a name
+	{"UserIDs", []string{"user", "ids"}}, {"AllowedIPs", []string{"allowed", "ips"}}, {"BackendURLs", []string{"backend", "urls"}}, {"VMs", []string{"vms"}},
 }
 
 var tagSpecs = []nameSpec{
